@@ -18,7 +18,7 @@ class NftItemData(TlbScheme):
         if isinstance(collection_address, str):
             collection_address = Address(collection_address)
         if isinstance(owner_address, str):
-            collection_address = Address(collection_address)
+            owner_address = Address(owner_address)
         self.collection_address = collection_address
         self.owner_address = owner_address
         self.content = content
